@@ -1,4 +1,5 @@
 (* C14 -- invalid sources are rejected.  Over the regenerated grammar and the PEG interpreter. *)
+From SV Require HandLex GenLexers LexFacts.
 From SV Require Import Peg PegFacts Bound BoundPk Barrier Trace GenGrammar.
 From Coq Require Import Arith.
 Local Open Scope nat_scope.
@@ -76,6 +77,14 @@ Proof.
   pose proof (runT_bd A prim act cond dirflag inp grammar bar peek_prims prim_stops GP14 _ _ _ _ _ _ _ _ _ E eq_refl M0 (Nat.le_0_l _) (Nat.le_0_l _)). tauto.
 Qed.
 End Oracles.
+
+(* for the token lexers written by hand (numbers, bases, identifiers; tables regenerated into Gen/GenLexers.v)
+   the hypothesis is a theorem: a control character, a blank, DEL or any byte of a non-ASCII character is never
+   consumed -- the lexer stops at or before it *)
+Theorem C14_token_lexers_stop_at_the_byte : forall veto l w n k,
+  In l GenLexers.token_lexers -> HandLex.lex veto l w = Some n -> k < length w ->
+  (nth k w 0 <= 32 \/ 127 <= nth k w 0)%N -> n <= k.
+Proof. exact LexFacts.token_lexer_stops. Qed.
 
 (* the hypothesis can be met, and the mark does move: a toy text "ab?" whose third byte no token primitive
    takes, while the look-ahead primitive 1 takes it -- under peek *)
